@@ -415,6 +415,10 @@ struct Gen {
 				if(rng.chance(1, 2)) found = fit_view(o.db, o.b, dv, o.cb, sv);
 				if(!found && !find_view(o.db, o.b, o.kind == O_EASSIGN ? -1 : dv.D, &dv, o.kind == O_EASSIGN, o.cb, sv, 20)) continue;
 				o.var = o.kind == O_VASSIGN_VIEW ? rng.below(6) : rng.below(2);
+				if(o.kind == O_VASSIGN_VIEW && rng.chance(1, 8) && dv.D >= T.dmin && dv.D <= T.dmax) {  // whole moved array as source
+					for(int i = 0; i < NSLOT; ++i)
+						if(M.at(dv.D, i).alive && !(dv.D == D && i == o.a) && dims_equal(M.at(dv.D, i), dv.D, dv.n)) { o.db = dv.D; o.b = i; o.cb = Chain{}; o.var = 6; }
+				}
 				if(P.allow_overlap && o.kind != O_VSWAP && rng.chance(1, 2)) { o.ov = 1; o.var = 0; }
 				break;
 			}
@@ -444,7 +448,7 @@ struct Gen {
 				int const want = o.kind == O_VFILL ? 1 : -1;
 				if(!find_view(D, o.a, want, nullptr, false, o.ca, dv) || dv.count() == 0) continue;
 				o.v   = rval();
-				o.var = o.kind == O_VASSIGN_CONV ? rng.below(2) : 0;
+				o.var = o.kind == O_VASSIGN_CONV ? rng.below(2) : o.kind == O_VASSIGN_RANGE ? rng.below(2) : 0;
 				break;
 			}
 			case O_ELEM_WRITE: {
